@@ -290,7 +290,7 @@ def r3_memo_coherence(ctx):
             # through the extractor: data of a buffer depends on the extractor's stores
             stale = sorted((d, sorted(rebinders[d])) for d in deps if d in rebinders)
             ctx.ob(mfi.where, f"{clsname}.{mname} is memoised per object; nothing it reads ({sorted(deps)}) is rebound by a later method of the object", not stale,
-                   f"rebound by {stale}", key=f"C04-R3|{clsname}|{mname}")
+                   f"rebound by {stale}", key=f"C04-R3|{clsname}|{mname}", definite=True)
     ctx.floor("classes examined for stale memos", n, 5)
     # FileBuffer.size is memoised on self and reads self.data: data of a selection must not change size after first use
     sz = ix.func(FB, "FileBuffer.size")
